@@ -66,10 +66,24 @@ class Twin:
         return ts
 
 
-def compare_obs(a: dict, b: dict, res: dict, where, what: str, keys=None) -> None:
+def _sub_multiset(small, big) -> bool:
+    pool = list(big)
+    for x in small:
+        if x in pool:
+            pool.remove(x)
+        else:
+            return False
+    return True
+
+
+def compare_obs(a: dict, b: dict, res: dict, where, what: str, keys=None, first_may_expose_fewer=False) -> None:
     common = set(a) & set(b) if keys is None else set(keys) & set(a) & set(b)
     res["compared"] += len(common)
     for k in sorted(common, key=repr):
+        if first_may_expose_fewer and k[0] == "anchor" and isinstance(a[k], tuple) and isinstance(b[k], tuple):
+            # names local to a loop iteration / call may keep an anchor only for some copies
+            if _sub_multiset(a[k], b[k]):
+                continue
         if a[k] != b[k]:
             raise Violation(what, {"at": list(map(str, k)), "first": repr(a[k])[:300],
                                    "second": repr(b[k])[:300], "where": where})
@@ -134,3 +148,204 @@ _RE_SUFFIX = re.compile(r"^(.*?)(?:__\w+)?$")
 def base_group(name: str) -> str:
     """Comparison group of a name: the part before the `__` suffix added by unrolling / inlining."""
     return name.split("__")[0]
+
+
+# ----------------------------------------------------------------------------- unrolling
+def loop_values(it, env_ints: dict) -> list[int]:
+    """Values of a loop iterator per the documented semantics (exclusive end, default step 1)."""
+    def ev(e):
+        if e[0] == "lit":
+            return e[1]
+        if e[0] == "var":
+            return env_ints[e[1]]
+        raise lang.RefError("loop bound must be a literal or an int variable")
+
+    if it[0] == "list":
+        return list(it[1])
+    a, b = ev(it[1]), ev(it[2])
+    st = 1 if it[3] is None else ev(it[3])
+    if st == 0:
+        raise lang.RefError("zero step")
+    out = []
+    x = a
+    while (st > 0 and x < b) or (st < 0 and x > b):
+        out.append(x)
+        x += st
+        if len(out) > 5000:
+            raise lang.RefError("loop too long")
+    return out
+
+
+def unroll(stmts, env_ints: dict | None = None, tag: str = "") -> list:
+    """The reference unrolling: copies of the body with the iterator replaced by each value in
+    order and every name declared in the body renamed apart per iteration."""
+    env_ints = dict(env_ints or {})
+    out = []
+    for s in stmts:
+        if s[0] == "decl" and s[1] == "int":
+            try:
+                env_ints[s[2]] = lang.Interp([]).ev(_subst_ints(s[3], env_ints), {})
+            except Exception:
+                pass
+            out.append(s)
+        elif s[0] == "for":
+            var, it, body = s[1], s[2], s[3]
+            for idx, v in enumerate(loop_values(it, env_ints)):
+                suffix = f"{tag}__{var}n{idx}v{v}".replace("-", "m")
+                b2 = subst(copy.deepcopy(body), var, ["lit", v, 10])
+                names = [n for n in declared_names_shallow(b2)]
+                b2 = rename(b2, {n: n + suffix for n in names})
+                inner_env = dict(env_ints)
+                inner_env[var] = v
+                out += unroll(b2, inner_env, suffix)
+        else:
+            out.append(s)
+    return out
+
+
+def _subst_ints(e, env_ints):
+    if isinstance(e, list):
+        if e and e[0] == "var" and e[1] in env_ints:
+            return ["lit", env_ints[e[1]], 10]
+        return [_subst_ints(x, env_ints) for x in e]
+    return e
+
+
+def declared_names_shallow(stmts) -> list[str]:
+    out = []
+    for s in stmts:
+        if s[0] == "decl":
+            out.append(s[2])
+        elif s[0] in ("mem",) or (s[0] == "place" and s[1]):
+            out.append(s[1])
+        elif s[0] == "for":
+            # names declared inside a nested loop are renamed when that loop is unrolled
+            pass
+    return out
+
+
+# ----------------------------------------------------------------------------- inlining
+class _Inliner:
+    def __init__(self, stmts):
+        self.funcs = {s[1]: s for s in stmts if s[0] == "func"}
+        self.n = 0
+        self.ints: dict = {}
+
+    def const_int(self, e, local_ints):
+        env = dict(self.ints)
+        env.update(local_ints)
+        v = lang.Interp([]).ev(_subst_ints(e, env), {})
+        if not isinstance(v, int):
+            raise lang.RefError("int parameter needs a compile-time integer argument")
+        return v
+
+    def expr(self, e, pre: list, local_ints: dict):
+        """Return e with every call replaced by its (renamed) return expression; statements the
+        call bodies contribute are appended to `pre`."""
+        if not isinstance(e, list) or not e:
+            return e
+        if e[0] == "call" and e[1] in self.funcs:
+            f = self.funcs[e[1]]
+            args = [self.expr(a, pre, local_ints) for a in e[2]]
+            self.n += 1
+            suf = f"__c{self.n}"
+            body = copy.deepcopy(f[3])
+            ret = copy.deepcopy(f[4])
+            ints = {}
+            # locals are renamed apart FIRST, so that argument expressions substituted
+            # afterwards can never be captured by a local of the same name
+            names = declared_names_shallow(body)
+            mp = {n: n + suf for n in names}
+            body = rename(body, mp)
+            if ret is not None:
+                ret = rename(ret, mp)
+            for (pt, pn), a in zip(f[2], args):
+                if pt == "int":
+                    v = self.const_int(a, local_ints)
+                    ints[pn] = v
+                    body = subst(body, pn, ["lit", v, 10])
+                    ret = subst(ret, pn, ["lit", v, 10]) if ret is not None else None
+                elif pt == "Signal":
+                    if a[0] == "var":
+                        repl = a
+                    else:
+                        nm = pn + suf
+                        pre.append(["decl", "Signal", nm, a])
+                        repl = ["var", nm]
+                    body = rename(subst(body, pn, repl), {pn: repl[1]})   # .type accesses too
+                    if ret is not None:
+                        ret = rename(subst(ret, pn, repl), {pn: repl[1]})
+                else:  # Entity
+                    if a[0] != "var":
+                        raise lang.RefError("entity argument must be a name")
+                    body = rename(body, {pn: a[1]})
+                    if ret is not None:
+                        ret = rename(ret, {pn: a[1]})
+            li = dict(local_ints)
+            li.update(ints)
+            pre.extend(self.block(body, li))
+            return self.expr(ret, pre, li) if ret is not None else None
+        if e[0] == "blit":
+            return ["blit", [self.expr(x, pre, local_ints) for x in e[1]]]
+        return [self.expr(x, pre, local_ints) if isinstance(x, list) else x for x in e]
+
+    def block(self, stmts, local_ints: dict) -> list:
+        out = []
+        alias: dict = {}
+        for s in stmts:
+            s = rename(s, alias) if alias else s
+            t = s[0]
+            if t == "func":
+                continue
+            pre: list = []
+            if t == "decl":
+                ex = self.expr(s[3], pre, local_ints)
+                out += pre
+                if s[1] == "int":
+                    try:
+                        v = self.const_int(ex, local_ints)
+                        if not local_ints:
+                            self.ints[s[2]] = v
+                        else:
+                            local_ints[s[2]] = v
+                    except Exception:
+                        pass
+                if s[1] == "Entity" and ex is not None and ex[0] == "var":
+                    alias[s[2]] = ex[1]        # `Entity e = f(...)` names the entity the call placed
+                    continue
+                out.append(["decl", s[1], s[2], ex])
+            elif t == "write":
+                d = self.expr(s[2], pre, local_ints)
+                w = self.expr(s[3], pre, local_ints) if s[3] is not None else None
+                out += pre + [["write", s[1], d, w]]
+            elif t == "latch":
+                v = self.expr(s[2], pre, local_ints)
+                a = self.expr(s[3], pre, local_ints)
+                b = self.expr(s[4], pre, local_ints)
+                out += pre + [["latch", s[1], v, a, b, s[5]]]
+            elif t == "enable":
+                ex = self.expr(s[2], pre, local_ints)
+                out += pre + [["enable", s[1], ex]]
+            elif t == "expr":
+                ex = self.expr(s[1], pre, local_ints)
+                out += pre
+                if ex is not None and ex[0] not in ("var", "lit"):
+                    out.append(["expr", ex])
+            elif t == "place":
+                x = self.expr(s[3], pre, local_ints)
+                y = self.expr(s[4], pre, local_ints)
+                out += pre + [["place", s[1], s[2], x, y, s[5]]]
+            elif t == "for":
+                out.append(["for", s[1], s[2], self.block(s[3], dict(local_ints))])
+            else:
+                out.append(s)
+        return out
+
+
+def inline_calls(stmts) -> list:
+    """Manual inlining: every call replaced by the function's body with parameters bound, locals
+    renamed apart per call site and the return expression in place of the call.  Loops are
+    unrolled first so that each iteration's call gets its own copy."""
+    flat = unroll(stmts)
+    inl = _Inliner(flat)
+    return inl.block(flat, {})
